@@ -1,7 +1,9 @@
 #!/bin/sh
-# final pass: every seeded change applied to /repo itself (git apply), target check (+ extra checks given in meta) run, git checkout -- .
+# final pass: every seeded change (or those matching the glob given as $1, e.g. '*-[GRX]*') applied to /repo itself (git apply),
+# the property's own check (+ checks that caught it before) run, git checkout -- .   Needs /repo to be otherwise unused.
 cd /verif
-for d in seeded/*/; do
+for d in seeded/${1:-*}/; do
+  [ -f "$d/patch.diff" ] || continue
   id=$(basename $d)
   prop=$(echo $id | cut -d- -f1)
   extra=$(/venv/bin/python -c "
